@@ -525,6 +525,7 @@ fn c04(tier: Tier, seed: u64) -> i32 {
 		eval_seq_case(&e, &case, want)
 	});
 	conc_campaign(&mut ctx, "C04", tier);
+	types_half(&mut ctx, "C04", tier, "types-no-lock-listed-twice-no-list-changed-afterwards");
 	ctx.require_label("rollback", 100);
 	ctx.require_label("world.nested", 500);
 	ctx.finish()
@@ -945,6 +946,9 @@ fn c02(tier: Tier, seed: u64) -> i32 {
 				})
 				.collect();
 			let mut pairs = pairs;
+			// who may touch the data, and from where: references that outlive their
+			// section, auto traits (differential against std)
+			pairs.extend(types_pairs_for("C02", tier));
 			surface_pairs(&mut ctx, "C02", &mut pairs);
 			let items: Vec<usize> = (0..pairs.len()).collect();
 			ctx.enumerate("types-member-list-cannot-change-after-construction", items, |i, want| types_report(&tc, &pairs[*i], want));
@@ -1514,26 +1518,37 @@ pub fn types_pairs_for(prop: &str, tier: Tier) -> Vec<crate::tyeng::Pair> {
 				p
 			})
 			.collect(),
-		// the unchecked constructors trust `OwnedLockable`: a borrowing or shareable
-		// type that gets the marker lets one thread list a lock twice (C01: it then
-		// waits for itself) and makes try outcomes depend on nesting (C13)
-		"C01" | "C13" => {
-			let mut v: Vec<crate::tyeng::Pair> = crate::tyeng::families_owned_lockable()
-				.into_iter()
-				.map(|mut p| {
-					p.prop = prop.into();
-					p
-				})
-				.collect();
-			if prop == "C01" {
-				v.extend(owned_opacity_pairs("C01"));
-			}
+		// Compile-time halves of run-time properties.  Each of these guarantees rests on
+		// something only the compiler enforces; the pairs are the same programs that
+		// C07 / C14 / C15 judge, filed under the property they would break:
+		//   H1  borrowing / shareable types are not `OwnedLockable` (a lock listed twice)
+		//   H2  a checked or sorted member list cannot be changed afterwards
+		//   D5  no shared access to the members of an owned collection
+		//   K*  the one-key discipline (transfer, copies, forgery, nesting on one key)
+		//   K10 a guard cannot be taken apart into its holds
+		//   D1/D2/D8 references and auto traits (who may touch the data, from where)
+		"C01" => {
+			let mut v = relabel(crate::tyeng::families_owned_lockable(), prop);
+			v.extend(owned_opacity_pairs(prop));
+			v.extend(c14_subset(prop, &["K1-", "K3-", "K4-", "K6-", "K7-", "K9-key-carrying"]));
 			v
 		}
-		// an owned collection takes its members in listing order and counts as one
-		// lock: sound only while no shared reference to a member can be had
-		"C09" => owned_opacity_pairs("C09"),
-		// C08: the sorted lock list is computed once: the member list must not change afterwards
+		"C02" => c15_subset(prop, &["D1-", "D1b-", "D2-", "D8-"]),
+		"C03" => c14_subset(prop, &["K3-key-or-hold-carrier", "K6-", "K7-", "K10-"]),
+		"C04" => {
+			let mut v = relabel(crate::tyeng::families_owned_lockable(), prop);
+			v.extend(relabel(crate::tyeng::families_mutation_after_check(), prop));
+			v
+		}
+		// C05: a hold is released by the thread that took it: the keyless hold types
+		// over raw locks that forbid it are not `Send` (differential against std)
+		"C05" => relabel(
+			crate::tyeng::families_c15(&crate::tyeng::Subj::all())
+				.into_iter()
+				.filter(|p| p.family == "D8-auto-trait-Send" && ["MutexRef", "RwLockReadRef", "RwLockWriteRef", "PoisonRef", "LockGuard", "MutexGuard", "RwLockReadGuard", "RwLockWriteGuard", "PoisonGuard"].iter().any(|t| p.name.starts_with(t)))
+				.collect(),
+			prop,
+		),
 		"C08" => {
 			let mut v: Vec<crate::tyeng::Pair> = crate::tyeng::families_mutation_after_check()
 				.into_iter()
@@ -1543,29 +1558,20 @@ pub fn types_pairs_for(prop: &str, tier: Tier) -> Vec<crate::tyeng::Pair> {
 					p
 				})
 				.collect();
-			v.extend(owned_opacity_pairs("C08"));
+			v.extend(owned_opacity_pairs(prop));
+			v.extend(relabel(crate::tyeng::families_owned_lockable(), prop));
 			v
 		}
-		// C03: nothing that carries a hold can be duplicated (a `Clone` of a hold
-		// acquires without a key while the thread holds locks)
-		"C03" => crate::tyeng::families_c14(&crate::tyeng::Subj::all())
-			.into_iter()
-			.filter(|p| p.family.starts_with("K3-key-or-hold-carrier") || p.family.starts_with("K10-"))
-			.map(|mut p| {
-				p.prop = "C03".into();
-				p
-			})
-			.collect(),
-		// C05: a hold is released by the thread that took it: the keyless hold types
-		// over raw locks that forbid it are not `Send` (differential against std)
-		"C05" => crate::tyeng::families_c15(&crate::tyeng::Subj::all())
-			.into_iter()
-			.filter(|p| p.family == "D8-auto-trait-Send" && ["MutexRef", "RwLockReadRef", "RwLockWriteRef", "PoisonRef", "LockGuard", "MutexGuard", "RwLockReadGuard", "RwLockWriteGuard", "PoisonGuard"].iter().any(|t| p.name.starts_with(t)))
-			.map(|mut p| {
-				p.prop = "C05".into();
-				p
-			})
-			.collect(),
+		"C09" => {
+			let mut v = owned_opacity_pairs(prop);
+			v.extend(relabel(crate::tyeng::families_owned_lockable(), prop));
+			v
+		}
+		"C13" => {
+			let mut v = relabel(crate::tyeng::families_owned_lockable(), prop);
+			v.extend(relabel(crate::tyeng::families_mutation_after_check(), prop));
+			v
+		}
 		"C15" => {
 			let mut v = crate::tyeng::families_c15(&subjects);
 			// "the constructors that skip the duplicate check require unsafe or owned
@@ -1614,6 +1620,7 @@ fn types_report(tc: &crate::tyeng::Toolchain, p: &crate::tyeng::Pair, want: bool
 		"C06" => "C06",
 		"C02" => "C02",
 		"C03" => "C03",
+		"C04" => "C04",
 		"C05" => "C05",
 		"C13" => "C13",
 		"C08" => "C08",
@@ -1700,6 +1707,23 @@ pub fn types_campaign(ctx: &mut CheckCtx, prop: &str, tier: Tier, quick_n: u64) 
 	}
 	tc.cleanup();
 	true
+}
+
+fn relabel(v: Vec<crate::tyeng::Pair>, prop: &str) -> Vec<crate::tyeng::Pair> {
+	v.into_iter()
+		.map(|mut p| {
+			p.prop = prop.into();
+			p
+		})
+		.collect()
+}
+
+fn c14_subset(prop: &str, prefixes: &[&str]) -> Vec<crate::tyeng::Pair> {
+	relabel(crate::tyeng::families_c14(&crate::tyeng::Subj::all()).into_iter().filter(|p| prefixes.iter().any(|f| p.family.starts_with(f))).collect(), prop)
+}
+
+fn c15_subset(prop: &str, prefixes: &[&str]) -> Vec<crate::tyeng::Pair> {
+	relabel(crate::tyeng::families_c15(&crate::tyeng::Subj::all()).into_iter().filter(|p| prefixes.iter().any(|f| p.family.starts_with(f))).collect(), prop)
 }
 
 /// D5: no shared access to the members of an owned collection (child, as_ref,
